@@ -1,7 +1,7 @@
 (* C09 — Month shapes describe exactly the days that exist in the month. *)
 From JV Require Import Sem Gen Spec SpecX.
 From JV.Proofs Require Import SpecFacts Cal Core SpecSets.
-Require JV.Proofs.IterCore.
+Require JV.Proofs.NthDate.
 Require JV.Proofs.Glue_C09_core.
 Open Scope Z_scope.
 
@@ -42,8 +42,8 @@ Proof. repeat split; vm_compute; reflexivity. Qed.
    [day_or_none c j] = Some (the value at_jdn returns for j) if -2^31 <= j < 2^31, None otherwise. *)
 Theorem C09_nth_date : forall c y m s k, ValidCal c -> in_i32 y -> in_u32 k -> Calendar_month_shape (cal_of c) y m = Ret (Some s) ->
   MonthShape_nth_date s k =
-    Ret (if (1 <=? k) && (k <=? month_count c y (Month_discr m)) then JV.Proofs.IterCore.day_or_none c (JV.Proofs.IterCore.month_base c y m + k - 1) else None) /\
+    Ret (if (1 <=? k) && (k <=? month_count c y (Month_discr m)) then JV.Proofs.NthDate.day_or_none c (JV.Proofs.NthDate.month_base c y m + k - 1) else None) /\
   (1 <= k <= month_count c y (Month_discr m) ->
-     lbl c (JV.Proofs.IterCore.month_base c y m + k - 1) = (y, Month_discr m, sh_nth (shape_of c y (Month_discr m)) k)).
-Proof. exact JV.Proofs.IterCore.nth_date_all. Qed.
+     lbl c (JV.Proofs.NthDate.month_base c y m + k - 1) = (y, Month_discr m, sh_nth (shape_of c y (Month_discr m)) k)).
+Proof. exact JV.Proofs.NthDate.nth_date_all. Qed.
 Print Assumptions C09_nth_date.
